@@ -345,6 +345,22 @@ class Evaluator:
                         obj[fld] = _num(r[p2col[src]])
                 table[r[keycol]] = ObjV("Residue", obj)
             self._lkup = ObjV("ResTable", {"residue_table": table})
+            # whatever else the constructor keeps on the object (an index from codes to keys, say): its remaining statements are
+            # evaluated with the table in place
+            extra = t.get("_extra_stmts") or []
+            if extra:
+                f = self.prog.fn(tab.RT, "ResTable.__init__")
+                fr = _Frame(f, 0)
+                env = {f.params()[0]: self._lkup}
+                for k, v in self._lkup.fields.items():
+                    env["@self." + k] = v
+                res = self.exec_block(extra, [Path([], "live", None, env)], fr)
+                live = [p for p in res if p.kind == "live"]
+                if len(live) != 1:
+                    raise Undecided("ResTable.__init__: statements besides the table loop do not reduce to one path", f.loc())
+                for k, v in live[0].env.items():
+                    if k.startswith("@self.") and k[6:] not in self._lkup.fields:
+                        self._lkup.fields[k[6:]] = v
         return self._lkup
 
     # --- entry points ---------------------------------------------------------
@@ -1003,6 +1019,9 @@ class Evaluator:
 
     def compare(self, a, op, b, fr, node):
         name = type(op).__name__
+        if name in ("Is", "IsNot", "Eq", "NotEq") and isinstance(a, PyType) and isinstance(b, PyType):
+            r = a.name == b.name
+            return r if name in ("Is", "Eq") else not r
         if name in ("Is", "IsNot"):
             if a is None or b is None:
                 r = (a is None and b is None)
@@ -1092,6 +1111,8 @@ class Evaluator:
                 return v
             if node.id in ("True", "False", "None"):
                 return {"True": True, "False": False, "None": None}[node.id]
+            if node.id in ("str", "int", "float", "dict", "list", "tuple", "bool", "set") and node.id not in fr.f.mod.globals:
+                return PyType(node.id)
             g = self.prog.resolve_global(fr.f.mod, node)
             if g:
                 return self.global_value(g, fr, node)
@@ -1164,6 +1185,9 @@ class Evaluator:
     def eval_listcomp(self, node, env, fr):
         g = node.generators[0]
         it = self.eval(g.iter, env, fr)
+        if isinstance(it, WinV) and it.base.kind == "seq" and isinstance(it.lo, Rat) and it.lo.equals(Rat.const(0)) \
+                and isinstance(it.hi, Rat) and it.hi.equals(Rat.atom("N")):
+            it = it.base                   # seq[:self.len] / seq[0:len(seq)] is the whole sequence (length invariant)
         if isinstance(it, SeqV) and it.kind == "seq" and isinstance(g.target, ast.Name) and not g.ifs:
             table = {}
             for L in LETTERS:
@@ -1451,6 +1475,21 @@ class Evaluator:
         args = node.args
         kw = {k.arg: k.value for k in node.keywords}
         # ---- builtins and numpy idioms
+        if name == "type" and len(args) == 1 and not node.keywords:
+            v = self.eval(args[0], env, fr)
+            if isinstance(v, bool):
+                return PyType("bool")
+            if isinstance(v, str):
+                return PyType("str")
+            if isinstance(v, TransTable) or isinstance(v, dict):
+                return PyType("dict")
+            if isinstance(v, list) or (isinstance(v, ListAcc) and not v.items):
+                return PyType("list")
+            if isinstance(v, tuple):
+                return PyType("tuple")
+            if v is None:
+                return PyType("NoneType")
+            raise Undecided("type() of a symbolic value (%s)" % unparse(node)[:50], fr.f.loc(node))
         if name == "isinstance" and len(args) == 2 and isinstance(args[1], ast.Name):
             v = self.eval(args[0], env, fr)
             t = args[1].id
@@ -1750,7 +1789,7 @@ class Evaluator:
                 return list(a)
             if isinstance(a, str):
                 return list(a)
-            if isinstance(a, SeqV):
+            if isinstance(a, (SeqV, FieldListV)):
                 return a
         if name == "set" and len(args) == 1 and isinstance(args[0], (list, tuple)):
             return list(args[0])
@@ -1829,6 +1868,8 @@ class Evaluator:
         args = [self.eval(a, env, fr) for a in node.args]
         if attr == "where" and len(args) == 1 and isinstance(args[0], MaskV):
             return WhereV(args[0])
+        if attr == "append" and len(args) == 2 and isinstance(args[0], ListAcc) and not args[0].items and isinstance(args[1], SeqV) and args[1].kind == "map":
+            return args[1]                 # np.append([], <per-residue vector>): the vector itself
         if attr == "append" and len(args) == 2 and isinstance(args[0], ListAcc):
             return ListAcc(args[0].items + [args[1]])
         if attr == "arange" and self.arange_as_index:
@@ -2045,6 +2086,16 @@ def _concrete_str(v):
             out.append(ch * int(c))
         return "".join(out)
     return None
+
+
+class PyType:
+    """the class object of a builtin type, as compared in `type(x) is str`"""
+
+    def __init__(self, name):
+        self.name = name
+
+    def __repr__(self):
+        return "<class %s>" % self.name
 
 
 class TransTable(dict):
